@@ -479,6 +479,10 @@ class Interp:
             pe = ("call", fn["def"], tuple(args[1:]) if False else tuple(args), ())
             ev.append(("apply", pe, site, aid))
             return ("applied", aid, pe)
+        if name == "and_then" and re.search(r"^std::(result::Result|option::Option)::<", full) and len(args) == 2 \
+                and isinstance(strip_casts(args[1]), tuple) and strip_casts(args[1])[0] == "closure":
+            # r.and_then(f): on the Ok path the closure runs with r's payload
+            return self.inline_closure(args[1], [mk_okval(args[0])], ev, site)
         if name == "map_or_else" and re.search(r"Option", full) and len(args) == 3:
             none_v = self.inline_closure(args[1], [], ev, site, pure=True)
             some_v = self.inline_closure(args[2], [self.proj(args[0], ["@Some", ".0"])], ev, site, pure=True)
